@@ -158,6 +158,24 @@ pub struct EncEntry {
     pub policy: String,
 }
 
+/// A key must keep its identifier and tracing points whatever happens to it short of a successful
+/// refresh: says what changed between two serialisations of one key object, if anything did.
+pub fn tracing_part_changed(before: &[u8], after: &[u8]) -> Option<String> {
+    let b = WUsk::decode(before).ok()?;
+    match WUsk::decode(after) {
+        Err(_) => Some("the key no longer has the layout of a user key".into()),
+        Ok(a) => {
+            if a.id != b.id {
+                Some(format!("the key lost its identifier ({} markers before, {} after)", b.id.len(), a.id.len()))
+            } else if a.ps != b.ps {
+                Some("the tracing points of the key were replaced".into())
+            } else {
+                None
+            }
+        }
+    }
+}
+
 /// How thoroughly an operation is checked.
 #[derive(Clone, Copy, PartialEq, Eq, Debug)]
 pub enum Mode {
@@ -862,6 +880,9 @@ impl World {
                 let a = ser(&self.usks[*k].usk);
                 if &a != b {
                     self.fail("C10.b", format!("{op}: returned Err but the user key changed ({} -> {} bytes)", b.len(), a.len()));
+                    if let Some(m) = tracing_part_changed(b, &a) {
+                        self.fail("C17.g", format!("{op}: refused, {m}"));
+                    }
                 }
             }
         }
@@ -1187,9 +1208,13 @@ impl World {
         // adopt the observed content (known versions only) for later predictions; what the key
         // MUST hold stays expected even if it is missing, so that the behavioural clauses
         // (decaps of the encapsulations it could open before) still fire
+        // ... and what it MAY not hold is not adopted either: the decaps matrix then shows the
+        // consequence (an encapsulation the key should have lost is still opened) under the
+        // clause of the property being checked
         let mut held = BTreeMap::new();
         for (r, vs) in got {
-            let v: Vec<Ver> = vs.into_iter().flatten().collect();
+            let Some(may) = pred.may.get(&r) else { continue };
+            let v: Vec<Ver> = vs.into_iter().flatten().filter(|v| may.contains(v)).collect();
             if !v.is_empty() {
                 held.insert(r, v);
             }
@@ -1267,6 +1292,13 @@ impl World {
                     if pred.is_ok() && check_class {
                         self.fail("C06.b", format!("encaps {p:?} under public key {j} failed ({e}) although every targeted right is published"));
                         self.fail("C09.o", format!("encaps {p:?} under public key {j} returned Err({e}), the contract says Ok"));
+                        if let Ok(m) = &pred {
+                            let keys = &self.mpks[j].model.keys;
+                            let n_h = m.targets.iter().filter(|(r, _)| keys.get(r).is_some_and(|k| k.1)).count();
+                            if n_h > 0 && n_h < m.targets.len() {
+                                self.fail("C11.m", format!("encaps {p:?} under public key {j} failed ({e}): its targets mix hybridized and classic rights, the encapsulation must be a classic one"));
+                            }
+                        }
                     }
                 }
             }
